@@ -66,6 +66,11 @@ func bookkeeping(c Case, r *result, u *vf.Unit) {
 		for _, n := range names {
 			u.Class("blocked:" + n)
 		}
+		for _, cl := range e.calls {
+			if cl.Name == "senddgram" && cl.Returned && cl.N >= 32 {
+				u.Class("blocked:senddgram(queue full)")
+			}
+		}
 		if e.conn != nil && e.didEnd {
 			u.Class("end:" + c.Cause + ":" + errKindOf(e, c) + ":" + errKind(e.endErr))
 		}
